@@ -376,6 +376,7 @@ func c12(c *Ctx) {
 			c.check(len(edges) > 0 && q.bypass() == nil, r, fmt.Sprintf("%s:execAt#%d:error->Cancel", fnName(f), i), c.pos(e.Pos()), "every return after a failed statement passes currTx.Cancel()", "a failed statement leaves execPreparedStmts without cancelling the transaction")
 		}
 	}
+	c12QueryFailureAborts(c, "C12.4/failure-aborts")
 	// ---- C12.5 unique index only on an empty table -------------------------------------------------------------------------------
 	r = "C12.5/unique-index-creation"
 	if f := c.mustFn(r, "embedded/sql.(*CreateIndexStmt).execAt"); f != nil {
@@ -416,5 +417,32 @@ func c12(c *Ctx) {
 			})
 			c.check(found, r, fnName(f)+":existing-row-refuses", c.pos(in.Pos()), "err == nil (a row exists) returns an error", "a unique index can be created on a table that already has rows")
 		}
+	}
+}
+
+// c12QueryFailureAborts: a data-modifying statement can also be run through the query path (DML ... RETURNING). There
+// too a failure must abort the transaction it ran in, or the rows it wrote before failing stay in an open transaction and
+// a later COMMIT publishes them. In QueryPreparedStmt every path from the entry to the execution of the statement
+// (execAt / Resolve) registers a deferred Cancel-on-error, except across the edge on which the statement is read-only.
+func c12QueryFailureAborts(c *Ctx, r string) {
+	f := c.mustFn(r, "embedded/sql.(*Engine).QueryPreparedStmt")
+	if f == nil {
+		return
+	}
+	runs := func(in ssa.Instruction) bool {
+		cc := callOf(in)
+		_, isDefer := in.(*ssa.Defer)
+		return cc != nil && !isDefer && cc.IsInvoke() && (cc.Method.Name() == "execAt" || cc.Method.Name() == "Resolve")
+	}
+	if len(sites(f, runs)) == 0 {
+		c.undecided(r, fnName(f)+":run", "the execution of the statement was not found")
+		return
+	}
+	readOnly := whenCond(true, func(a string) bool { return strings.Contains(a, "readOnly[") || strings.Contains(a, ").readOnly") })
+	q := &pathQ{fn: f, fromEntry: true, to: runs, via: callTo(sqlTxT + "Cancel"), deferVia: true, barrier: readOnly}
+	if w := q.bypass(); w != nil {
+		c.fail(r, fnName(f)+":dml-failure->Cancel", c.pos(w[len(w)-1].Pos()), "a data-modifying statement is run by the query path in a transaction for which no cancel-on-error is registered: if it fails half way, what it wrote stays in the open transaction and can be committed ("+c.witnessStr(w)+")")
+	} else {
+		c.ok(r, fnName(f)+":dml-failure->Cancel", c.pos(f.Pos()), "a deferred Cancel-on-error is registered on every path to the execution of a statement that is not read-only")
 	}
 }
